@@ -201,6 +201,11 @@ structure Res where
   cfcOut : Nat := 0
   cfcBad : Nat := 0
   cfcFlat : Nat := 0
+  /-- `cursor_parent_is_parentOnPath` (+ `goto_parent_spec`, `depth_parent`) evaluated on every positioned cursor:
+  hypotheses (linked stack, top entry visible) and conclusion (goto_parent shows the node `parentOnPath` designates for
+  the stack's path — compared by id —, depth decreases by one; on the root: fails) hold / conclusion fails -/
+  cparChk : Nat := 0
+  cparBad : Nat := 0
   /-- the port's cursor positioned on node `cacheNode` by `gotoDescendant` -/
   cacheNode : Nat := u32max
   cache : Cursor := default
@@ -316,7 +321,24 @@ def judgeLine (c : Ctx) (root : Tree) (rootId : Nat) (r : Res) (line : String) :
         -- position the port's cursor on node k once per node
         let r := if r.cacheNode == k then r else
           let cur := gotoDescendant c.lang k (Cursor.ofRoot root rootId)
-          { r with cacheNode := k, cache := cur, stackBad := r.stackBad + (if stackLinked cur.stack && stackIdxOK cur.stack then 0 else 1) }
+          let hypOK := stackLinked cur.stack && stackIdxOK cur.stack
+          let topVis := match cur.stack with | e :: rest => isEntryVisible c.lang e rest.head? | [] => false
+          let rootRef : NodeRef := { t := root, alias := 0, id := rootId, start := root.data.padding }
+          let (pok, pc) := gotoParent c.lang cur
+          let concl : Bool :=
+            if cur.stack.length ≤ 1 then !pok
+            else
+              let path := (cur.stack.dropLast.map (·.childIndex)).reverse
+              let exp := parentOnPath c.lang rootRef rootRef path
+              pok && (pc.stack.head?.map (·.id)) == some exp.id &&
+                (match pc.stack with
+                 | [r0] => decide (r0.t.data = exp.t.data) && exp.alias == 0
+                 | e :: p :: _ => decide (e.t.data = exp.t.data) && exp.alias == (if e.t.data.extra then 0 else c.lang.aliasAt p.t.data.productionId e.si)
+                 | [] => false) &&
+                currentDepth c.lang pc + 1 == currentDepth c.lang cur
+          { r with cacheNode := k, cache := cur, stackBad := r.stackBad + (if hypOK && topVis then 0 else 1),
+                   cparChk := r.cparChk + (if hypOK && topVis && concl then 1 else 0),
+                   cparBad := r.cparBad + (if hypOK && topVis && !concl then 1 else 0) }
         let r := if op == "cfcb" || op == "cfcp" then
             let (gb, gp) := if op == "cfcb" then (natOf (args.headD "0"), POINT_ZERO) else (0, pt (args.headD "0") (args.getD 1 "0"))
             let cur := r.cache
